@@ -143,12 +143,19 @@ def check(ck):
     fjl = prog.func("jsonrpc", "load")
     gj = cfg_of(fjl)
     dj = dominators(gj)
-    for rn in [n for n in gj.live_nodes() if n.kind == "return"]:
+    for (rn, val) in q.return_sources(fjl):
         off = [gj.nodes[d] for d in dj[rn.id] if gj.nodes[d].kind == "branch" and dump(gj.nodes[d].test) == "config.use_jsonclass"]
-        if rn.ast is not None and rn.ast.value is not None and not q.returns_none_literal(rn):
-            t = prov.origin(gj, rn, rn.ast.value)
+        if not q.is_none_expr(val):
+            t = prov.origin(gj, rn, val)
             alts = prov.alts(t)
-            okk = ("param", "data") in alts and all(a == ("param", "data") or (a[0] == "call" and prov.show(a[1]).endswith("jsonclass.load")) for a in alts)
+            allowed = all(a == ("param", "data") or (a[0] == "call" and prov.show(a[1]).endswith("jsonclass.load")) for a in alts)
+            pols = set(b.polarity for b in off)
+            if pols == set([True]):          # result computed on the translating side only
+                okk = allowed
+            elif pols == set([False]):       # result computed on the gate-off side only
+                okk = set(alts) == set([("param", "data")])
+            else:                            # join of both sides
+                okk = ("param", "data") in alts and allowed
             ck.require(okk, "C08.1", "jsonrpc.load: `%s`" % q.stmt_text(rn), "returns Param(data) itself when the gate is off",
                        "with translation disabled jsonrpc.load returns %s instead of its argument unchanged" % prov.show(t)[:80], q.loc(fjl, rn))
 
@@ -246,7 +253,11 @@ def check(ck):
     for n in g.live_nodes():
         for c in node_calls(n):
             nm = call_name(c)
-            if nm in ("__import__", "setattr", "json_class") or (nm == "getattr" and len(c.args) >= 2 and not isinstance(c.args[1], ast.Constant)):
+            ctor = isinstance(c.func, ast.Name) and nm not in ("load", "dict", "list", "tuple", "set") and \
+                (any(isinstance(a, ast.Starred) for a in c.args) or any(k.arg is None for k in c.keywords))
+            if ctor:
+                sensitive.append((n, "constructor call %s(...)" % nm))
+            elif nm in ("__import__", "setattr") or (nm == "getattr" and len(c.args) >= 2 and not isinstance(c.args[1], ast.Constant)):
                 sensitive.append((n, "%s(...)" % nm))
         for e in node_exprs(n):
             for sub in ast.walk(e):
@@ -254,8 +265,9 @@ def check(ck):
                     sensitive.append((n, "classes[...] lookup"))
                 if isinstance(sub, ast.Subscript) and isinstance(sub.ctx, ast.Store) and dump(sub.value) == "obj":
                     pass
-    if len(sensitive) < 6:
-        raise AnalysisError("anchor vanished: import / lookup / constructor / setattr sites in jsonclass.load (found %d)" % len(sensitive))
+    kinds = set(w.split("(")[0].split(" ")[0] for (_n, w) in sensitive)
+    if not set(["__import__", "setattr", "getattr", "constructor", "classes[...]"]) <= kinds:
+        raise AnalysisError("anchor vanished: import / lookup / constructor / setattr sites in jsonclass.load (found %s)" % sorted(kinds))
     for (n, what) in sensitive:
         okk = any(b.id in dom[n.id] for b in empty_guard) and any(b.id in dom[n.id] for b in alpha_guard)
         ck.require(okk, "C08.4", "%s: %s" % (q.fn(fl), what), "dominated by both name guards",
